@@ -301,7 +301,9 @@ ws_evhttp_read_cb(struct bufferevent *bufev, void *arg)
 	struct evbuffer *input = bufferevent_get_input(evws->bufev);
 
 	bufferevent_incref_and_lock_(evws->bufev);
-	while ((in_len = evbuffer_get_length(input))) {
+	/* Once the connection is closed (close frame, protocol error, or
+	 * evws_close() from the callback) nothing more must be delivered. */
+	while (!evws->closed && (in_len = evbuffer_get_length(input))) {
 		unsigned char *data = evbuffer_pullup(input, in_len);
 		if (data == NULL) {
 			goto bailout;
